@@ -516,8 +516,23 @@ fn judge(
     stats: &mut RunStats,
 ) {
     let empty: HashSet<String> = HashSet::new();
+    // positions the artifact's history holds: every earlier search root on this artifact
+    // (the engine records them itself) plus whatever the case injected through the hook
+    let mut recorded: HashSet<String> = HashSet::new();
     for (i, r) in recs.iter().enumerate() {
         let spec = &case.searches[i];
+        if spec.fresh {
+            recorded.clear();
+        }
+        for h in &spec.history {
+            if let Some(p) = Pos::from_fen(h) {
+                recorded.insert(solve::key(&p));
+            }
+        }
+        let recorded_before = recorded.clone();
+        if let Some(p) = Pos::from_fen(&spec.fen) {
+            recorded.insert(solve::key(&p));
+        }
         let Some(pos) = Pos::from_fen(&spec.fen) else {
             *harness_error = Some(format!("bad FEN in case: {}", spec.fen));
             return;
@@ -619,7 +634,7 @@ fn judge(
             continue;
         }
         let fresh = spec.fresh || i == 0;
-        if spec.history.is_empty() && fresh {
+        if recorded_before.is_empty() && fresh {
             let n = match ctx.tb.probe(&pos) {
                 Some(Val::Win(n)) => Some(n),
                 Some(_) => None,
@@ -660,9 +675,9 @@ fn judge(
                 }
             }
         }
-        if !spec.history.is_empty() {
+        if !recorded_before.is_empty() && case.prop == "C17" {
             // the game in which *entering* a recorded position (or the root again) is a draw
-            let mut drawn: HashSet<String> = spec.history.iter().filter_map(|h| Pos::from_fen(h)).map(|p| solve::key(&p)).collect();
+            let mut drawn: HashSet<String> = recorded_before.clone();
             drawn.insert(solve::key(&pos));
             if let Some(Val::Win(_)) = ctx.tb.probe(&pos) {
                 let n = modified_mate_distance(ctx, &pos, d, &drawn);
@@ -676,7 +691,7 @@ fn judge(
                                     "C17",
                                     "repeating-move-chosen",
                                     "",
-                                    format!("'{}' with recorded {:?}: reported first move {} enters a recorded position", spec.fen, spec.history, line[0].uci()),
+                                    format!("'{}' with recorded {:?}: reported first move {} enters a recorded position", spec.fen, recorded_before, line[0].uci()),
                                 ));
                             } else if ctx.tb.move_keeps_win(&pos, line[0]) != Some(true) {
                                 v.push(Violation::new("C17", "mate-first-move", "", format!("'{}': first move {} does not keep the win", spec.fen, line[0].uci())));
@@ -689,7 +704,7 @@ fn judge(
                             format!(
                                 "'{}' with recorded {:?}: a mate in {} plies avoiding the recorded positions exists, depth {} search ended with evaluation {} (first move {})",
                                 spec.fen,
-                                spec.history,
+                                recorded_before,
                                 n,
                                 d,
                                 eval,
@@ -1144,7 +1159,7 @@ pub fn generate(ctx: &Ctx, prop: &str, rng: &mut Rng64, thorough: bool) -> Searc
                     break;
                 }
             }
-            let history: Vec<String> = recorded.iter().map(|m| pos.make(*m).fen()).collect();
+            let mut history: Vec<String> = recorded.iter().map(|m| pos.make(*m).fen()).collect();
             let mut drawn: HashSet<String> = recorded.iter().map(|m| solve::key(&pos.make(*m))).collect();
             drawn.insert(solve::key(&pos));
             let nmod = modified_mate_distance(ctx, &pos, 7, &drawn);
@@ -1154,7 +1169,28 @@ pub fn generate(ctx: &Ctx, prop: &str, rng: &mut Rng64, thorough: bool) -> Searc
             };
             let w = *rng.pick(&[1usize, 2, 3, 4, 8]);
             let (entry, rt) = if rng.chance(800) { (Entry::Sync { workers: Some(w) }, w) } else { (Entry::Public, w) };
-            case.searches.push(SearchSpec { fen: pos.fen(), depth: Some(depth), seed: rng.next(), entry, rayon_threads: rt, fresh: true, history, faults: vec![] });
+            // Half of the cases let the positions enter the history the way a game does: each
+            // is searched as a root on the same artifact first (so the table also holds
+            // entries for them), instead of being written into the history through the hook.
+            let organic = rng.chance(500);
+            if organic {
+                let mut first = true;
+                for h in history.drain(..) {
+                    let w0 = *rng.pick(&[1usize, 1, 2, 4]);
+                    case.searches.push(SearchSpec {
+                        fen: h,
+                        depth: Some(2 + rng.below(4) as u32),
+                        seed: rng.next(),
+                        entry: Entry::Sync { workers: Some(w0) },
+                        rayon_threads: w0,
+                        fresh: first,
+                        history: vec![],
+                        faults: vec![],
+                    });
+                    first = false;
+                }
+            }
+            case.searches.push(SearchSpec { fen: pos.fen(), depth: Some(depth), seed: rng.next(), entry, rayon_threads: rt, fresh: !organic, history, faults: vec![] });
         }
         "C19" => {
             case.dims = *rng.pick(&[(8usize, 64usize), (8, 1024), (2, 8)]);
